@@ -465,6 +465,13 @@ def trace_case(env, rng, case, idx, reads):
     if P["fmt"] == "sdmf":
         s.unpack()
     s.unpack_small()
+    # the same share cut short somewhere behind the header
+    hl = 107 if P["fmt"] == "sdmf" else 123
+    if size > hl + 1:
+        s.damage("truncate", at=rng.randint(hl, size - 1))
+        read_everything(s, "r4", rng.choice([0, 0, hl]), False, nseg, rng, some=5)
+        if P["fmt"] == "sdmf":
+            s.unpack()
     return {"consts": {"kind": "case", "fmt": P["fmt"], "via": via}, "events": s.events}
 
 
